@@ -47,7 +47,7 @@ PLAN = {
               required_classes={'all': ['rule:' + r for r in RULES13] + ['rule:IdentityRule', 'rule:HomothetyRule']}),
     'C10': _p(quick=90, thorough=850),
     'C05': _p(quick=90, thorough=3000),
-    'C03': _p(quick=90, thorough=700),
+    'C03': _p(quick=70, thorough=700),
     'C04': _p(quick=60, thorough=900),
     'C02': _p(quick=110, thorough=2750),
     'C01': _p(quick=75, thorough=850,
